@@ -20,8 +20,23 @@ import shutil
 import subprocess
 import sys
 
-WT = "/tmp/seedverify_wt"
-TGT = "/tmp/seedverify_target"
+LANE = os.environ.get("SEEDLANE", "")
+WT = "/tmp/seedverify_wt" + LANE
+TGT = "/tmp/seedverify_target" + LANE
+
+
+def flaky_tests():
+    """tests that fail intermittently or always on the unchanged tree in this sandbox (BASELINE.json),
+    by the name cargo prints (without the crate prefix)"""
+    try:
+        b = json.load(open("/root/.vp/BASELINE.json"))
+    except (OSError, ValueError):
+        b = {}
+    names = set(b.get("flaky", [])) | set(b.get("always_fail", [])) | set(b.get("dropped_after_offline", []))
+    out = {n.split("::", 1)[1] for n in names if "::" in n}
+    out |= {"test::test_ipv4", "test::test_ipv6", "daemon::ntp_source::tests::test_timeroundtrip",
+            "daemon::server::tests::test_server_serves", "server::tests::test_server_rate_limit"}
+    return out
 VERIF = os.path.dirname(os.path.dirname(os.path.abspath(__file__)))
 
 
@@ -79,7 +94,7 @@ def main():
     reset()
     # baseline failing set (cached per HEAD)
     head = subprocess.check_output("git -C %s rev-parse HEAD" % WT, shell=True, text=True).strip()
-    cache = "/tmp/seedverify_baseline_%s.json" % head
+    cache = "/tmp/seedverify_baseline_%s%s.json" % (head, LANE)
     if not no_suite:
         if os.path.exists(cache):
             base = set(json.load(open(cache)))
@@ -110,7 +125,9 @@ def main():
         ok, fails, out = suite()
         res["compiles_with_patch"] = ok
         res["suite_failing_with_patch"] = sorted(fails)
-        res["suite_unchanged"] = ok and fails == base
+        fl = flaky_tests()
+        res["suite_unchanged"] = ok and (fails - fl) == (base - fl)
+        res["suite_failing_not_flaky"] = sorted(fails - fl)
     # 5. our checks
     res["checks"] = {}
     for c in checks:
